@@ -578,6 +578,15 @@ func (e *Engine) callMods(fr *Frame, fn *ssa.Function, x ssa.CallInstruction, de
 				return
 			}
 		}
+		if k := ifaceMethodKey(cc); k != "" {
+			if c := e.prog.Contracts[k]; c != nil && e.bindInvoke(cc) == nil {
+				// assumed contract on a dependency: its frame
+				for _, m := range e.expandMods(c.Modifies) {
+					addAll(e.modName(m))
+				}
+				return
+			}
+		}
 		if isDropped(name) || pureInvoke(cc) {
 			return
 		}
@@ -782,6 +791,12 @@ func (fr *Frame) logRetSig(ctx *callCtx, callee calleeSig, r Val) Val {
 		hn := fmt.Sprintf("callret_%s_%d", mangle(callee.Name()), i)
 		e.setHeap(ctx.st, hn, srt, v.S)
 		e.callArgTypes[hn] = t
+		// running sum of numeric results over all calls (retsum(F, i) in contracts)
+		switch kindOf(t) {
+		case kInt, kMathInt, kDec:
+			sn := fmt.Sprintf("callsum_%s_ret%d", mangle(callee.Name()), i)
+			e.setHeap(ctx.st, sn, "Int", app("+", e.heap(ctx.st, sn, "Int"), v.S))
+		}
 	}
 	return r
 }
@@ -1075,7 +1090,7 @@ func (fr *Frame) copyOp(ctx *callCtx) Val {
 func mentionsCallLog(x Expr) bool {
 	switch y := x.(type) {
 	case *ECall:
-		if y.Fn == "arg" || y.Fn == "ret" || y.Fn == "called" || y.Fn == "argsum" {
+		if y.Fn == "arg" || y.Fn == "ret" || y.Fn == "called" || y.Fn == "argsum" || y.Fn == "retsum" || y.Fn == "iterkey" || y.Fn == "iterk" || y.Fn == "iterstopped" {
 			return true
 		}
 		for _, a := range y.Args {
